@@ -97,6 +97,7 @@ RULES = [
  ('not left work-in-progress when the build of the cell referred to fails', 'C09', 'retry-returns-a-value/iterative/*/under-reference-valued-cell/below-a-range (=INDIRECT("A1") over a cell not built yet whose range holds the failing cell: later evaluations returned None)'),
  ('queued by a failed build and then overwritten', 'C01', 'stale-value + stale-value/xlsx-stored-result-of-cell-built-after-write (after a failed build, set_value over a formula cell the build had queued: the written value was wiped by the next evaluate)'),
  ('sheet can be given to a sheet-less A:A', 'C05', "sheetless-unbounded-raises (evaluate('A:A') on the active sheet raised ValueError: the corner 'A' was parsed as a cell)"),
+ ('intersect in one empty cell', 'C02', 'reference-call/intersection-in-one-blank-cell/* (=SUM(A5:C5 B4:B6) over an empty B5 raised FormulaEvalError: the one-cell result of the intersection was walked as a range; remark of a round 6 agent)'),
 ]
 
 
